@@ -95,10 +95,13 @@ func findChroot(c *Check) *chrootInfo {
 					callsJoin = true
 				}
 			})
-			if callsRel && sig.Params().Len() == 1 && sig.Results().Len() == 1 && isErrorType(sig.Results().At(0).Type()) {
+			_ = callsJoin
+			oneString := sig.Params().Len() == 1 && isStringType(sig.Params().At(0).Type())
+			if callsRel && oneString && sig.Results().Len() == 1 && isErrorType(sig.Results().At(0).Type()) {
 				ci.allow = m
 			}
-			if callsJoin && sig.Params().Len() == 1 && sig.Results().Len() == 2 {
+			// join by role: (string) -> (string, error), unexported helper
+			if oneString && sig.Results().Len() == 2 && isStringType(sig.Results().At(0).Type()) && isErrorType(sig.Results().At(1).Type()) {
 				ci.join = m
 			}
 		}
